@@ -19,6 +19,7 @@ let rec e = function
   | _ -> failwith "exp"
 let names = function Lst l -> L.map (function A h -> unhex h | _ -> failwith "name") l | _ -> failwith "names"
 let es = function Lst l -> L.map e l | _ -> failwith "exps"
+let tv = function Lst l -> L.map (function Lst [A b; A h] -> (b = "1", unhex h) | _ -> failwith "trivia") l | _ -> failwith "trivia"
 let rec s = function
   | Lst [A "local"; ns; x] -> SLocal (names ns, es x) | Lst [A "assign"; v; x] -> SAssign (es v, es x) | Lst [A "callst"; x] -> SCall (e x)
   | Lst [A "do"; b] -> SDo (blk b) | Lst [A "while"; c; b] -> SWhile (e c, blk b) | Lst [A "repeat"; b; c] -> SRepeat (blk b, e c)
@@ -29,7 +30,10 @@ let rec s = function
   | Lst [A "localfunction"; A n; ps; A va; body] -> SLocalFunction (unhex n, names ps, va = "1", blk body)
   | Lst [A "return"; x] -> SReturn (es x) | Lst [A "break"] -> SBreak
   | _ -> failwith "stmt"
-and blk = function Lst l -> L.map s l | _ -> failwith "block"
+and item = function
+  | Lst [A "item"; lead; A blank; st; Lst tr] -> Item (tv lead, blank = "1", s st, (match tr with [A h] -> Some (unhex h) | _ -> None))
+  | _ -> failwith "item"
+and blk = function Lst [A "blk"; Lst is; tl] -> Blk (L.map item is, tv tl) | _ -> failwith "block"
 and els = function
   | Lst [A "noelse"] -> NoElse | Lst [A "else"; b] -> Else (blk b) | Lst [A "elseif"; c; t; r] -> ElseIf (e c, blk t, els r)
   | _ -> failwith "els"
